@@ -59,6 +59,7 @@ func addC20Ops(l *OpLib) {
 	perp("ts_perp_long_unmet_own1", "own1", tstypes.PerpetualPosition_LONG, "3.2", "2", 5000000, "1.5")
 	perp("ts_perp_short_unmet_own1", "own1", tstypes.PerpetualPosition_SHORT, "7", "2", 6000000, "0.5")
 	perp("ts_perp_long_met_huge_own1", "own1", tstypes.PerpetualPosition_LONG, "5.5", "8", 500000000000, "1.5")
+	perp("ts_perp_long_met_own2", "own2", tstypes.PerpetualPosition_LONG, "5.6", "2", 3000000, "1.5")
 	first := func(w *World) (uint64, uint64) {
 		s, p := uint64(1), uint64(1)
 		if os := pendingSpotOf(w, "own1"); len(os) > 0 {
